@@ -16,6 +16,11 @@ type Tpl struct {
 	tree *Tree
 }
 
+const (
+	// Maximum depth of nested includes. Protects from templates including themselves.
+	maxIncDepth = 128
+)
+
 var (
 	// Templates DB.
 	tplDB = initDB()
@@ -605,8 +610,16 @@ func (t *Tpl) writeNode(w io.Writer, node *node, ctx *Ctx) (err error) {
 		// Include sub-template expression.
 		tpl := tplDB.getBKeys(node.tpl)
 		if tpl != nil {
+			if ctx.incD >= maxIncDepth {
+				// Template includes itself (directly or not).
+				err = ErrIncDepth
+				return
+			}
 			w1 := ctx.getW()
-			if err = writeTree(w1, tpl, ctx); err != nil {
+			ctx.incD++
+			err = writeTree(w1, tpl, ctx)
+			ctx.incD--
+			if err != nil {
 				return
 			}
 
